@@ -104,12 +104,16 @@ class Inst:
 
 
 LEAN_TYPE = {'Dt': 'Int', 'Td': 'Int', 'Int': 'Int', 'Bool': 'Bool', 'TI': 'GV.TI', 'Opt TI': 'Option GV.TI',
-             'Pair Dt': 'Int × Int', 'None': 'Unit'}
+             'Pair Dt': 'Int × Int', 'None': 'Unit', 'R': 'Rat', 'Pt': 'GV.Pt'}
 
 
 def lean_type(t):
     if t.startswith('Except '):
         return 'Except String ' + _paren(lean_type(t[7:]))
+    if t.startswith('Prod '):
+        return ' × '.join(_paren(lean_type(p)) for p in _prod_parts(t))
+    if t.startswith('List '):
+        return 'List ' + _paren(lean_type(t[5:]))
     if t in LEAN_TYPE:
         return LEAN_TYPE[t]
     return t
@@ -204,7 +208,10 @@ class Unit:
         doc += [ln.replace('-/', '- /') for ln in src_lines if not ln.strip().startswith(('"""', "'''"))][:40]
         doc += ['```', '-/']
         head = f'def {inst.lean} {binders} : {lean_type(inst.ret)} :='
-        return doc + [head] + ['  ' + ln for ln in body.split('\n')]
+        pre = []
+        for a in reversed(tr.aux):            # inner loops were completed first and are used by the outer ones
+            pre += a.split('\n') + ['']
+        return pre + doc + [head] + ['  ' + ln for ln in body.split('\n')]
 
 
 class Val:
@@ -221,6 +228,8 @@ class FnTr:
         self.narrow = {}         # access path -> Val (after a truthiness / `is None` test)
         self.fresh = 0
         self.pending = []        # raising calls met inside an expression: (bound name, Lean text), innermost last
+        self.on_fall = None      # inside a loop body: what "falling off the end" means (next iteration)
+        self.aux = []            # auxiliary recursive definitions (loops), emitted before the function
         self.fields = {}         # __init__: attribute -> Val
         for n, t in inst.params:
             self.env[n] = Val(lname(n), t, path=n)
@@ -241,6 +250,8 @@ class FnTr:
         c.env, c.narrow, c.fields = dict(self.env), dict(self.narrow), dict(self.fields)
         c.fresh = self.fresh
         c.pending = []
+        c.on_fall = self.on_fall
+        c.aux = self.aux         # shared: loops met in any branch are emitted once, before the function
         return c
 
     def wrap(self, text):
@@ -288,6 +299,8 @@ class FnTr:
 
     def block(self, stmts):
         if not stmts:
+            if self.on_fall is not None:
+                return self.on_fall(self)
             if self.inst.qual.endswith('.__init__'):
                 return self.finish_init()
             raise Unsupported(f'`{self.inst.qual}`: control can fall off the end (returns None)')
@@ -509,12 +522,12 @@ class FnTr:
 
     def for_stmt(self, s, rest):
         """`for x in xs: if c: return K` (early exit, nothing else in the body), then the rest"""
-        if s.orelse or not isinstance(s.target, ast.Name):
-            raise Unsupported(f'`{self.inst.qual}`: for/else or pattern target')
+        if s.orelse:
+            raise Unsupported(f'`{self.inst.qual}`: for/else')
         xs = self.expr(s.iter)
         if not xs.typ.startswith('List '):
             raise Unsupported(f'`{self.inst.qual}`: loop over {xs.typ}')
-        if len(s.body) == 1 and isinstance(s.body[0], ast.If) and not s.body[0].orelse and len(s.body[0].body) == 1 \
+        if isinstance(s.target, ast.Name) and len(s.body) == 1 and isinstance(s.body[0], ast.If) and not s.body[0].orelse and len(s.body[0].body) == 1 \
                 and isinstance(s.body[0].body[0], ast.Return) and isinstance(s.body[0].body[0].value, ast.Constant) \
                 and isinstance(s.body[0].body[0].value.value, bool):
             k = s.body[0].body[0].value.value
@@ -530,7 +543,85 @@ class FnTr:
             after = self.block(rest)
             self.pending = pend
             return self.wrap(f'if ({xs.text}).any (fun {x} => {c}) then {self.ok("true" if k else "false")} else\n{_indent(after)}')
-        raise Unsupported(f'`{self.inst.qual}`: loop body is not a single early `return True/False`')
+        return self.for_general(s, rest, xs)
+
+    def for_general(self, s, rest, xs):
+        """A loop with state: an auxiliary structural recursion over the list.  Its parameters are every variable in
+        scope (unchanged ones first, then the *state*: the outer variables the body assigns); `[]` continues with the code
+        after the loop, `item :: items` runs the body, where falling off the end is the recursive call with the current
+        state and `return` leaves the function."""
+        assigned = set()
+        for n in ast.walk(ast.Module(body=s.body, type_ignores=[])):
+            if isinstance(n, (ast.Assign, ast.AugAssign, ast.AnnAssign)):
+                for t in (n.targets if isinstance(n, ast.Assign) else [n.target]):
+                    for m in ast.walk(t):
+                        if isinstance(m, ast.Name):
+                            assigned.add(m.id)
+            if isinstance(n, (ast.For, ast.While, ast.Break, ast.Continue, ast.Try, ast.With)):
+                raise Unsupported(f'`{self.inst.qual}`: `{type(n).__name__}` inside a loop body')
+        targets = [s.target.id] if isinstance(s.target, ast.Name) else \
+            [t.id for t in s.target.elts if isinstance(t, ast.Name)] if isinstance(s.target, ast.Tuple) else None
+        if not targets or (isinstance(s.target, ast.Tuple) and len(targets) != len(s.target.elts)):
+            raise Unsupported(f'`{self.inst.qual}`: loop target `{ast.unparse(s.target)}`')
+        state = [n for n in self.env if n in assigned and n not in targets]
+        fixed = [n for n in self.env if n not in state and self.env[n].typ != 'None']
+        elem = xs.typ[5:]
+        loop = f'{self.inst.lean}.loop{len(self.aux) + 1}'
+        self.aux.append(None)                 # reserve the number (nested / later loops count on)
+        slot = len(self.aux) - 1
+        ctx = [n for n, _t in self.u.ctx_params]
+        # --- the auxiliary definition
+        aux = self.sub()
+        aux.fresh = self.fresh
+        aux.narrow = {}
+        fixed_b, state_b = [], []
+        for n in fixed:
+            nm = aux.gensym(lname(n))
+            fixed_b.append((nm, self.env[n].typ))
+            aux.env[n] = Val(nm, self.env[n].typ, path=n)
+        for n in state:
+            nm = aux.gensym(lname(n))
+            state_b.append((nm, self.env[n].typ))
+            aux.env[n] = Val(nm, self.env[n].typ, path=n)
+        item, items = aux.gensym('item'), aux.gensym('items')
+        # [] : the code after the loop
+        after_tr = aux.sub()
+        after_tr.fresh = aux.fresh
+        after_tr.on_fall = self.on_fall
+        after = after_tr.block(rest)
+        # item :: items : the body
+        body_tr = aux.sub()
+        body_tr.fresh = after_tr.fresh
+        if isinstance(s.target, ast.Name):
+            body_tr.env[targets[0]] = Val(item, elem, path=targets[0])
+        else:
+            parts = _prod_parts(elem)
+            if len(parts) != len(targets):
+                raise Unsupported(f'`{self.inst.qual}`: unpacking {elem} into {len(targets)} names')
+            for i, (n, t) in enumerate(zip(targets, parts)):
+                proj = f'{item}.{i + 1}' if len(parts) == 2 else None
+                if proj is None:
+                    raise Unsupported('unpacking of wider tuples')
+                body_tr.env[n] = Val(proj, t, path=n)
+
+        def next_iteration(tr):
+            args = [tr.env[n].text for n in fixed] + [items] + [_paren(tr.env[n].text) for n in state]
+            return ' '.join([loop] + ctx + args)
+        body_tr.on_fall = next_iteration
+        body = body_tr.block(list(s.body))
+        self.fresh = body_tr.fresh
+        binders = ' '.join([f'({n} : {t})' for n, t in self.u.ctx_params] + [f'({n} : {lean_type(t)})' for n, t in fixed_b])
+        sig = ' → '.join([f'List {_paren(lean_type(elem))}'] + [lean_type(t) for _n, t in state_b] + [lean_type(self.inst.ret)])
+        pat_state = ''.join(f', {n}' for n, _t in state_b)
+        self.aux[slot] = ('\n'.join([
+            f'/-- the `for {ast.unparse(s.target)} in {ast.unparse(s.iter)}` loop of `{self.inst.qual}`: state ' +
+            (', '.join(state) or 'none') + ' -/',
+            f'def {loop} {binders} : {sig}',
+            f'  | []{pat_state} =>', _indent(after, 4),
+            f'  | {item} :: {items}{pat_state} =>', _indent(body, 4)]))
+        # --- the call
+        args = [self.env[n].text for n in fixed] + [_paren(xs.text)] + [_paren(self.env[n].text) for n in state]
+        return self.wrap(' '.join([loop] + ctx + args))
 
     # ---- expressions -----------------------------------------------------------------------------------
     def truth(self, v):
@@ -605,9 +696,12 @@ class FnTr:
             if a.typ != b.typ:
                 raise Unsupported(f'conditional expression of types {a.typ} / {b.typ}')
             return Val(f'(if {self.truth(self.expr(e.test))} then {a.text} else {b.text})', a.typ)
-        if isinstance(e, ast.BinOp) and isinstance(e.op, (ast.Add, ast.Sub)):
+        if isinstance(e, ast.BinOp) and isinstance(e.op, (ast.Add, ast.Sub, ast.Mult)):
             a, b = self.expr(e.left), self.expr(e.right)
-            sym = '+' if isinstance(e.op, ast.Add) else '-'
+            a, b = self.unify_num(a, b)
+            sym = {ast.Add: '+', ast.Sub: '-', ast.Mult: '*'}[type(e.op)]
+            if a.typ == b.typ == 'R' or (a.typ == b.typ == 'Int' and sym == '*'):
+                return Val(f'({a.text} {sym} {b.text})', a.typ)
             table = {('Dt', '+', 'Td'): 'Dt', ('Dt', '-', 'Td'): 'Dt', ('Dt', '-', 'Dt'): 'Td', ('Td', '+', 'Td'): 'Td',
                      ('Td', '-', 'Td'): 'Td', ('Int', '+', 'Int'): 'Int', ('Int', '-', 'Int'): 'Int', ('Td', '+', 'Dt'): 'Dt'}
             t = table.get((a.typ, sym, b.typ))
@@ -619,6 +713,35 @@ class FnTr:
             if len(vals) == 2 and vals[0].typ == vals[1].typ:
                 return Val(f'({vals[0].text}, {vals[1].text})', 'Pair ' + vals[0].typ)
             raise Unsupported(f'tuple `{ast.unparse(e)}`')
+        if isinstance(e, ast.List) and e.elts:
+            parts, typ = [], None
+            for el in e.elts:
+                if isinstance(el, ast.Starred):
+                    v = self.expr(el.value)
+                    if not v.typ.startswith('List '):
+                        raise Unsupported(f'`*` of {v.typ}')
+                    parts.append(v.text)
+                    t = v.typ[5:]
+                else:
+                    v = self.expr(el)
+                    parts.append(f'[{v.text}]')
+                    t = v.typ
+                if typ not in (None, t):
+                    raise Unsupported(f'list display of {typ} and {t}')
+                typ = t
+            return Val('(' + ' ++ '.join(parts) + ')', 'List ' + typ)
+        if isinstance(e, ast.Subscript):
+            v = self.expr(e.value)
+            if v.typ.startswith('List '):
+                sl = e.slice
+                if isinstance(sl, ast.Slice) and sl.upper is None and sl.step is None and isinstance(sl.lower, ast.Constant) \
+                        and isinstance(sl.lower.value, int) and sl.lower.value >= 0:
+                    return Val(f'(({v.text}).drop {sl.lower.value})', v.typ)
+                if isinstance(sl, ast.Constant) and isinstance(sl.value, int) and sl.value >= 0:
+                    r = Val(f'(GV.Py.getIdx {_paren(v.text)} {sl.value})', v.typ[5:])
+                    r.raises = True                      # IndexError when the list is too short
+                    return r
+            raise Unsupported(f'`{self.inst.qual}`: subscript `{ast.unparse(e)}` of {v.typ}')
         if isinstance(e, ast.ListComp):
             return self.list_comp(e)
         if isinstance(e, ast.Call):
@@ -659,6 +782,10 @@ class FnTr:
             inst = self.u.find(f'{cls}.__contains__', (a.typ,))
             r = self.apply(inst, [b, a])
             return r if isinstance(op, ast.In) else Val(f'(!{r.text})', 'Bool')
+        a, b = self.unify_num(a, b)
+        num = num + ('R',)
+        if a.typ == b.typ == 'Bool' and isinstance(op, (ast.Eq, ast.NotEq)):
+            return Val(f'({a.text} {"==" if isinstance(op, ast.Eq) else "!="} {b.text})', 'Bool')
         if a.typ in num and b.typ == a.typ:
             sym = {ast.Lt: '<', ast.LtE: '≤', ast.Gt: '>', ast.GtE: '≥'}.get(type(op))
             if sym:
@@ -679,6 +806,14 @@ class FnTr:
                 if r is not None:
                     return r if isinstance(op, ast.Eq) else Val(f'(!{r.text})', 'Bool')
         raise Unsupported(f'comparison {a.typ} {type(op).__name__} {b.typ}')
+
+    def unify_num(self, a, b):
+        """an int literal next to a float-modelled-as-rational operand is that rational"""
+        if a.typ == 'R' and b.typ == 'Int':
+            return a, Val(f'({b.text} : Rat)', 'R')
+        if a.typ == 'Int' and b.typ == 'R':
+            return Val(f'({a.text} : Rat)', 'R'), b
+        return a, b
 
     def apply(self, inst, args):
         if len(args) != len([p for p in inst.params]):
@@ -703,7 +838,14 @@ class FnTr:
                 a, b = self.expr(e.args[0]), self.expr(e.args[1])
                 if a.typ == b.typ and a.typ in ('Dt', 'Td', 'Int'):
                     return Val(f'({f.id} {a.text} {b.text})', a.typ)
+                if a.typ == b.typ == 'R':
+                    return Val(f'(GV.{f.id}R {a.text} {b.text})', 'R')
                 raise Unsupported(f'{f.id} of {a.typ}, {b.typ}')
+            if f.id == 'zip' and len(e.args) == 2:
+                a, b = self.expr(e.args[0]), self.expr(e.args[1])
+                if a.typ.startswith('List ') and b.typ.startswith('List '):
+                    return Val(f'(({a.text}).zip {b.text})', f'List Prod {_paren(a.typ[5:])} {_paren(b.typ[5:])}')
+                raise Unsupported(f'zip of {a.typ}, {b.typ}')
             if f.id == 'cast' and len(e.args) == 2:
                 return self.expr(e.args[1])
             if f.id == 'hash' and len(e.args) == 1:
@@ -797,6 +939,25 @@ class FnTr:
         c = inner.truth(inner.expr(g.elt))
         self.fresh = inner.fresh
         return Val(f'(({xs.text}).{which} (fun {x} => {c}))', 'Bool')
+
+
+def _prod_parts(t):
+    """'Prod A B' (A, B without spaces or parenthesised) -> [A, B]"""
+    if not t.startswith('Prod '):
+        return [t]
+    rest, parts, depth, cur = t[5:], [], 0, ''
+    for ch in rest:
+        if ch == '(':
+            depth += 1
+        elif ch == ')':
+            depth -= 1
+        if ch == ' ' and depth == 0:
+            parts.append(cur)
+            cur = ''
+        else:
+            cur += ch
+    parts.append(cur)
+    return [p[1:-1] if p.startswith('(') and p.endswith(')') else p for p in parts]
 
 
 def _path(e):
